@@ -54,7 +54,7 @@ def gen(rng, broker, tier):
                            # the call cannot be made - a failed execution, never a silently replaced dependency
                            "collide": rng.random() < 0.1})
     return {"nodes": nodes, "roots": roots, "deliveries": deliveries, "conv": rng.choice(["basic", "pydantic"]),
-            "negative": rng.choice([None, None, "positional-only", "non-default-arg"]),
+            "negative": rng.choice([None, None, "positional-only", "non-default-arg"]), "extra_meta": rng.random() < 0.4,
             "knobs": {"step_cost": rng.choice([0, 0, 1, "rand"])}}
 
 
@@ -118,7 +118,9 @@ async def _main(sim, sc, out):
             src = f"def prov{i}({', '.join(params)}):\n    return _body({call})\n"
         exec(src, ns)  # noqa: S102
         fn = ns[f"prov{i}"]
-        ann = {f"d{j}": Annotated[Any, deps[j]] for j in subs}
+        # (further metadata may follow the dependency inside Annotated)
+        ann = {f"d{j}": (Annotated[Any, deps[j], "doc"] if (i + j) % 3 == 0 and sc.get("extra_meta") else Annotated[Any, deps[j]])
+               for j in subs}
         if with_msg:
             ann["msg"] = r.MessageDependency
         fn.__annotations__ = ann
@@ -169,7 +171,8 @@ async def _main(sim, sc, out):
     extra_kw = ", **extra" if sc["conv"] == "basic" else ""
     exec(f"async def act(x, y=5, *, {', '.join('r%d' % j for j in roots)}{extra_kw}):\n    return await _body({call})\n", ns)  # noqa: S102
     act = ns["act"]
-    act.__annotations__ = {"x": int, "y": int, **{f"r{j}": Annotated[Any, deps[j]] for j in roots}}
+    act.__annotations__ = {"x": int, "y": int, **{f"r{j}": (Annotated[Any, deps[j], "doc", 7] if sc.get("extra_meta") and j % 2 == 0
+                                                            else Annotated[Any, deps[j]]) for j in roots}}
     router = r.Router()
     conv = {"basic": r.BasicConverter, "pydantic": r.PydanticConverter}[sc["conv"]]
     router.actor(act, name="act", queue="q", converter=conv,
